@@ -179,6 +179,11 @@ impl Vm {
 
       match channel.receive(self.fiber.waiter()) {
         ReceiveResult::Ok(value) => {
+          // taking a value may be what a parked sender is waiting for
+          if let Some(waiter) = channel.runnable_waiter() {
+            self.queue_blocked_fiber(waiter);
+          }
+
           // Value was present put onto stack
           self.fiber.push(value);
           ExecutionSignal::Ok
@@ -229,7 +234,14 @@ impl Vm {
       fiber.add_used_channel(self.gc.borrow_mut(), self, channel);
 
       match channel.send(self.fiber.waiter(), value) {
-        SendResult::Ok => ExecutionSignal::Ok,
+        SendResult::Ok => {
+          // a new value may be what a parked receiver is waiting for
+          if let Some(waiter) = channel.runnable_waiter() {
+            self.queue_blocked_fiber(waiter);
+          }
+
+          ExecutionSignal::Ok
+        },
         SendResult::NoSendAccess => self.runtime_error_from_str(
           self.builtin.errors.runtime,
           "Attempted to send into a receive only channel.",
